@@ -613,7 +613,12 @@ def scriptTree (script : List Sh) (inv : Inv) : Tree Code :=
 
 /-! ## Stage 2: walking the tree under oracles -/
 
-abbrev FS := SPath → Node
+/-- a file system: what is at every (symbolic) path.  (A structure rather than a bare function so that
+updates are evaluated when they happen, not at every later look-up.) -/
+structure FS where
+  node : SPath → Node
+
+instance : CoeFun FS (fun _ => SPath → Node) := ⟨FS.node⟩
 
 structure Oracle where
   status : Nat → Cmd → Nat       -- exit status of the idx-th command of this invocation
@@ -623,7 +628,7 @@ structure Dyn where
   fs : FS
   log : List (Cmd × Nat)
 
-def FS.set (fs : FS) (p : SPath) (n : Node) : FS := fun q => if q = p then n else fs q
+def FS.set (fs : FS) (p : SPath) (n : Node) : FS := ⟨fun q => if q = p then n else fs q⟩
 
 def FS.content (fs : FS) (p : SPath) : Content :=
   match fs p with
@@ -638,7 +643,7 @@ def applyEff (inv idx : Nat) (fs : FS) : Effect → FS
     if fs dst = .dir then fs.set (dst.child name) (.file (fs.content src)) else fs.set dst (.file (fs.content src))
   | .convert src dst => fs.set dst (.file (.converted (fs.content src)))
   | .job out inp => fs.set out (.file (.jobOut inv idx (fs.content inp)))
-  | .remove p => fun q => if q.isUnder p then .absent else fs q
+  | .remove p => ⟨fun q => if q.isUnder p then .absent else fs q⟩
 
 def applyEffs (inv idx : Nat) (fs : FS) : List Effect → FS
   | [] => fs
